@@ -16,6 +16,11 @@ Round 4: read_import evicts the imported parameter file (repair 9368d4c); 0-d
 array costs are scaled as scalars (repair f13ad96); converted files get k
 through write_monitor (repair 885bac7); read_raw_file(iter=True) sizes the ids
 by the number of costs.
+Round 5 (hunt): listify's 0-d branch is reachable (repair 39048ea);
+raw_to_converge converts cost by cost (repair ece4f1b); a one-record slice
+store also addresses index -1 (repair 61064e9); read_import reads the file by
+path, never by module name (repair 0289afb); another monitor's raw costs are
+only read through the k conversion (repair d697a4c).
 NOT decided: textual round trip of particular float/array values.
 """
 import ast
@@ -87,8 +92,13 @@ def parallel_arrays_move_together(ctx):
             # canonical terms with the block's plain locals substituted (nx = numpy.ndim(self._x) ...), then the array's own
             # name abstracted: the three stores must be one and the same expression of "their" array
             bld = T.Builder()
+            for st0 in f.node.body:       # function-level temporaries (the k-converted costs of the other monitor)
+                if isinstance(st0, ast.Assign) and len(st0.targets) == 1 and isinstance(st0.targets[0], ast.Name) and st0.targets[0].id not in f.args():
+                    bld.exec_stmt(st0)
             norm = {}
             last = {a: sts[-1] for a, sts in stores.items()}
+            other = f.args()[2] if len(f.args()) > 2 else None
+            converted = [T.simp(T.term(ast.parse(src % other, mode='eval').body)) for src in ('list(self._get_y(%s))', 'self._get_y(%s)')] if other else []
 
             def abstract(t_, a):
                 if isinstance(t_, tuple):
@@ -105,7 +115,11 @@ def parallel_arrays_move_together(ctx):
                     continue
                 for a, lst in last.items():
                     if st is lst:
-                        norm[a] = abstract(('store', T.simp(bld.t(st.targets[0])), T.simp(bld.t(st.value))), a)
+                        val = T.simp(bld.t(st.value))
+                        if a == '_y':      # the costs come through the k conversion: the same role as <other>._y
+                            for cv in converted:
+                                val = T.substitute(val, cv, ('attr', ('name', other), '_y'))
+                        norm[a] = abstract(('store', T.simp(bld.t(st.targets[0])), val), a)
                 if isinstance(st, ast.Assign) and all(isinstance(tg_, (ast.Name, ast.Tuple)) for tg_ in st.targets):
                     bld.exec_stmt(st)
             good = set(stores) == {'_x', '_y', '_id'} and len(set(norm.values())) == 1
@@ -454,35 +468,37 @@ def every_call_is_recorded_by_value(ctx):
 
 
 @rule('C20.i', min_instances=1)
-def parameter_files_are_read_not_imported_once(ctx):
-    """read_import (behind read_raw_file / read_converge_file / the support scripts) reads a parameter file through the import machinery; the interpreter caches modules by name, so unless the entry is evicted on every path after the import a file that was rewritten - same monitor written again after more iterations, or another trajectory under the same name - is read back as its FIRST contents"""
+def parameter_files_are_read_not_imported(ctx):
+    """read_import (behind read_raw_file / read_converge_file / read_support_file and the support scripts) gives back the contents of THE FILE IT IS GIVEN, as it is now. Going through the import machinery by module name cannot guarantee that: modules are cached by name (sys.modules), finders by sys.path entry (a relative '.' entry is resolved once, so only the first directory of a process is ever searched), byte code by size and whole-second mtime (a file rewritten within the second is read as its previous contents), and an installed module of the same name (trace, profile, test) shadows the file. The function therefore reads the file by its path - open(<path built from the argument>) and exec/compile of that text, or runpy.run_path - and contains no import-by-name of the file"""
     f = ctx.func(MU + ':read_import')
+    fp = f.args()[0]
     imports = []
     for n in walk_no_nested(f.node):
-        if isinstance(n, ast.Constant) and isinstance(n.value, str) and ('import {' in n.value or n.value.startswith('import ') or ' import ' in n.value):
+        if isinstance(n, ast.Constant) and isinstance(n.value, str) and ('import {' in n.value or n.value.startswith('import ') or ' import ' in n.value) and n is not ast.get_docstring(f.node, clean=False) \
+                and not (f.node.body and isinstance(f.node.body[0], ast.Expr) and f.node.body[0].value is n):
             imports.append(n)
         if isinstance(n, ast.Call) and callee_text(n).split('.')[-1] in ('import_module', '__import__'):
             imports.append(n)
-    if not imports:
-        ctx.ok('read_import#cache', 'the file is not read through the import machinery', f, f.node)
+    if imports:
+        ctx.bad('read_import#by-path', 'read_import reads the parameter file through the import machinery, by module name: which file is read then depends on sys.modules, on the finder cached for the sys.path entry '
+                '(only the first directory used in a process is searched), on cached byte code (a file rewritten within the same second is read as its old contents) and on installed modules of the same name - '
+                'the matching reader does not give back what the writer wrote', f, enclosing_stmt(imports[0]) or f.node, statement='import of the parameter file by module name')
         return
-    # eviction: sys.modules.pop(<name>, ...) / del sys.modules[<name>] / importlib.reload(...) in a finally block, or after the imports on every path
-
-    def is_evict(n):
-        if isinstance(n, ast.Call) and isinstance(n.func, ast.Attribute) and n.func.attr == 'pop' and unparse(n.func.value).endswith('modules'):
-            return True
-        if isinstance(n, ast.Delete) and any(isinstance(tg, ast.Subscript) and unparse(tg.value).endswith('modules') for tg in n.targets):
-            return True
-        return isinstance(n, ast.Call) and callee_text(n).split('.')[-1] == 'reload'
-    in_finally = False
-    for n in walk_no_nested(f.node):
-        if isinstance(n, ast.Try) and any(imp in list(ast.walk(n)) for imp in imports):
-            for st in n.finalbody:
-                if any(is_evict(x) for x in ast.walk(st)) and not guards_of(st, stop=n):
-                    in_finally = True
-    ctx.check(in_finally, 'read_import#cache', 'the module entry is evicted in the finally block of the import (every call reads the file as it is now)',
-              'read_import imports the parameter file as a module and leaves it in sys.modules: a second read of a file of the same name returns the first contents, whatever was written since',
-              f, enclosing_stmt(imports[0]) or f.node, statement='import of the parameter file without eviction from sys.modules')
+    names = {fp}          # forward closure: locals computed from the argument
+    changed = True
+    while changed:
+        changed = False
+        for st in stmts_of(f.node):
+            if isinstance(st, ast.Assign) and any(isinstance(x, ast.Name) and x.id in names for x in ast.walk(st.value)):
+                for tg in assigned_names(st):
+                    if tg not in names:
+                        names.add(tg)
+                        changed = True
+    opens = [c for c in walk_no_nested(f.node) if isinstance(c, ast.Call) and callee_text(c).split('.')[-1] in ('open', 'run_path') and c.args and
+             any(isinstance(x, ast.Name) and x.id in names for x in ast.walk(c.args[0]))]
+    runs = [c for c in walk_no_nested(f.node) if isinstance(c, ast.Call) and callee_text(c).split('.')[-1] in ('exec', 'run_path')]
+    ctx.need(opens and runs, 'read_import: neither an import by name nor open(<path from the argument>) + exec is recognised (how is the file read?)')
+    ctx.ok('read_import#by-path', 'the file is read by its path (open/compile/exec), not looked up by module name', f, enclosing_stmt(opens[0]))
 
 
 @rule('C20.j', min_instances=1)
@@ -571,3 +587,63 @@ def concatenation_reads_its_argument_through_snapshots(ctx):
                           'Monitor.%s inserts into self while enumerating %s: when the argument is the monitor itself every insertion lengthens the list being enumerated and the call never returns'
                           % (name, unparse(a)[:50]), f, c)
     ctx.need(n >= 5, 'expected >= 5 concatenation reads in extend / prepend, found %d' % n)
+
+
+@rule('C20.m', min_instances=3)
+def single_record_slices_reach_the_last_record(ctx):
+    """`m[i] = other` with an integer i replaces record i by the records of `other`: it is written as a slice store a[i:stop]; for a negative i the slice [i:i+1] is right except at i == -1, where the stop 0 makes it the empty slice in front of the last record (the records are inserted, nothing is replaced). Every slice store of Monitor.__setitem__ whose stop is start+1 must therefore either have a start that was normalised (i % n, or i += n under i < 0) or write the stop as `(start+1) or None`"""
+    M = ctx.cls(MO + ':Monitor')
+    f = ctx.touch(M.methods['__setitem__'])
+    ip = f.args()[1]
+    normalised = False
+    for st in walk_no_nested(f.node):
+        if isinstance(st, ast.Assign) and any(isinstance(t_, ast.Name) and t_.id == ip for t_ in st.targets) and isinstance(st.value, ast.BinOp) and isinstance(st.value.op, ast.Mod):
+            normalised = True
+        if isinstance(st, ast.If) and isinstance(st.test, ast.Compare) and isinstance(st.test.left, ast.Name) and st.test.left.id == ip and isinstance(st.test.ops[0], ast.Lt) \
+                and unparse(st.test.comparators[0]) == '0' and any(isinstance(s, ast.AugAssign) and isinstance(s.op, ast.Add) and isinstance(s.target, ast.Name) and s.target.id == ip for s in st.body):
+            normalised = True
+    n = 0
+    bld = T.Builder()
+    for st in stmts_of(f.node):
+        if isinstance(st, ast.Assign) and len(st.targets) == 1 and isinstance(st.targets[0], ast.Name) and st.targets[0].id != ip:
+            bld.exec_stmt(st)
+        if not (isinstance(st, ast.Assign) and len(st.targets) == 1 and isinstance(st.targets[0], ast.Subscript) and isinstance(st.targets[0].slice, ast.Slice)):
+            continue
+        sl = st.targets[0].slice
+        if sl.lower is None or sl.upper is None:
+            continue
+        lo, up = T.simp(bld.t(sl.lower)), T.simp(bld.t(sl.upper))
+        one_more = T.simp(T.padd(T.as_poly(lo), T.as_poly(T.num(1))))
+        if up == one_more:
+            n += 1
+            ctx.check(normalised, 'Monitor.__setitem__#%s' % unparse(st.targets[0].value), 'one-record slice also addresses the last record',
+                      'Monitor.__setitem__ stores into %s: at index -1 the stop is 0 and the slice is empty, so m[-1] = other inserts the records in front of the last one instead of replacing it'
+                      % unparse(st.targets[0]), f, st)
+        elif up[0] == 'or' and one_more in up[1:] and any(x == ('const', None) or x == ('name', 'None') or x is None for x in up[1:]):
+            n += 1
+            ctx.check(True, 'Monitor.__setitem__#%s' % unparse(st.targets[0].value), 'one-record slice also addresses the last record', '', f, st)
+    ctx.need(n >= 3, 'Monitor.__setitem__: expected the three one-record slice stores of the integer branch, found %d' % n)
+
+
+@rule('C20.n', min_instances=3)
+def foreign_costs_are_read_through_the_k_conversion(ctx):
+    """who may read another monitor's raw cost list: `_y` holds the costs multiplied by the OWNER's k, so inside Monitor only `_get_y` (which combines the two k's) and the copy / pickle plumbing may read `<other>._y`; every method that takes a monitor and stores its costs into self (extend, prepend, item and slice assignment) reads them through `self._get_y(other)` - a raw `other._y` copied into `self._y` is re-interpreted with self's k (Monitor(k=-1)[:] = other flipped the signs)"""
+    M = ctx.cls(MO + ':Monitor')
+    n = 0
+    for name, f in sorted(M.methods.items()):
+        if name in ('_get_y', '__deepcopy__', '__reduce__', '__getstate__', '__setstate__', '__getitem__', '__add__'):
+            continue
+        sn = selfname_of(f)
+        params = [a for a in f.args() if a != sn]
+        for p in params:
+            # the parameter may be re-bound to a fresh empty Monitor() for Null: still the same role
+            reads = [a for a in ast.walk(f.node) if isinstance(a, ast.Attribute) and a.attr == '_y' and isinstance(a.ctx, ast.Load) and isinstance(a.value, ast.Name) and a.value.id == p]
+            conv = calls_where(f.node, lambda c: self_call(c, '_get_y', sn) and c.args and isinstance(c.args[0], ast.Name) and c.args[0].id == p, include_lambda=False)
+            if not reads and not conv:
+                continue
+            n += 1
+            ctx.touch(f)
+            ctx.check(not reads, 'Monitor.%s#%s._y' % (name, p), 'costs of the other monitor are read through self._get_y(%s)' % p,
+                      'Monitor.%s copies %s._y - costs scaled by %s.k - into its own list, which is read back with self.k: with different scaling factors the recorded costs come back multiplied by k_other/k_self'
+                      % (name, p, p), f, enclosing_stmt(reads[0]) if reads else f.node)
+    ctx.need(n >= 3, 'expected >= 3 Monitor methods that take over the costs of another monitor, found %d' % n)
